@@ -14,7 +14,42 @@ MANIFEST = {
   "engine": "coq",
 }
 
-MODS = ("forward", "smooth", "passive", "solver", "sensor", "support", "derivative", "constraint", "island")
+MODS = ("forward", "smooth", "passive", "solver", "sensor", "support", "derivative", "constraint", "island", "sleep")
+
+# three spheres in a row, touching; the middle tree is put to sleep (a one-tree cycle) between two awake
+# trees whose countdowns differ, so BOTH contacts wake it in the same launch with different wake values
+SLEEP_XML = """<mujoco><option timestep="0.004" gravity="0 0 0"><flag sleep="enable" island="enable"/></option><worldbody>
+<body pos="-0.19 0 0"><freejoint/><geom type="sphere" size=".1"/></body>
+<body pos="0 0 0"><freejoint/><geom type="sphere" size=".1"/></body>
+<body pos="0.19 0 0"><freejoint/><geom type="sphere" size=".1"/></body>
+<body pos="0 0.5 0"><freejoint/><geom type="sphere" size=".1"/></body>
+</worldbody></mujoco>"""
+
+
+def sleep_cases(wanted):
+  """Real launches of the wake kernels on hand-set sleep states (one-tree cycles, several wakers)."""
+  import mujoco
+
+  import ktrace
+  import mujoco_warp as mjw
+  from mujoco_warp._src import sleep
+
+  m = mujoco.MjModel.from_xml_string(SLEEP_XML)
+  d = mujoco.MjData(m)
+  mujoco.mj_forward(m, d)
+  mm = mjw.put_model(m)
+  cases = []
+  for asleep in ([[-11, 1, -3, -5], [-3, 1, -11, 3]], [[-2, 1, -9, -4], [-9, 1, -2, -4]]):
+    dd = mjw.put_data(m, d, nworld=2, nconmax=8, njmax=32)
+    mjw.forward(mm, dd)
+    a = np.array(asleep, dtype=np.int32)
+    dd.tree_asleep.assign(a)
+    dd.tree_awake.assign((a < 0).astype(np.int32))
+    with ktrace.Tracer(wanted, per_kernel=4) as t:
+      sleep.wake_collision(mm, dd)
+    cases += t.cases
+  return cases
+
 
 XML = """<mujoco><option timestep="0.004"/><worldbody><geom type="plane" size="5 5 .1"/>
 <body pos="0 0 0.11"><freejoint/><geom type="box" size=".1 .1 .1"/></body>
@@ -86,6 +121,22 @@ def permuted_runs(res, quick):
         if v == 2:
           fails.append({"kernel": c["qual"], "order": c["order"], "dim": list(c["dim"]) if isinstance(c["dim"], (tuple, list)) else c["dim"], "variant": variant})
     res.extra.setdefault("skipped_launches", {}).update({k.split(".")[-1]: v for k, v in t.skipped.items()})
+  # wake kernels (sleeping enabled): several tasks of one launch wake the same tree with different values
+  scs = []
+  for c in sleep_cases(wanted):
+    for order in ("asc", "rev", f"perm:{int(rng.integers(1 << 30))}", f"perm:{int(rng.integers(1 << 30))}"):
+      c2 = dict(c)
+      c2["order"] = order
+      scs.append(c2)
+  if scs:
+    verdicts = kvalid.run_cases(res, "C11_sleep", "Gen.T_sleep", scs, tol=5e-4)
+    for c, v in zip(scs, verdicts):
+      name = c["qual"].split(".")[-1]
+      if v == 0:
+        nk.add(name)
+        res.nontrivial(("sleep", name, c["order"], len(nk)))
+      if v == 2:
+        fails.append({"kernel": c["qual"], "order": c["order"], "dim": c["dim"], "variant": "sleep", "tree_asleep_before": np.asarray(c["args"].get("tree_asleep_out")).tolist()})
   res.extra["kernels_permuted_ok"] = sorted(nk)
   if fails:
     res.sample({"kind": "permuted launch disagreement", "first": fails[0]})
